@@ -238,6 +238,12 @@ def applicable_rules():
         (['U struct'], [F, S.Struct('U', [M('x', 'u8'), M('y', 'F')]), X([n, a, o, b])]),
         (['X rename Y'], [F, Un, S.Struct('Y', [n, a, o, b])]),
         (['X rename b c'], [F, Un, X([n, a, o, M('c', 'u16')])]),
+        # rules keyed on the new name address a message that is absent from the input: they are ignored, in either order
+        (['X rename Y', 'Y static b 3'], [F, Un, S.Struct('Y', [n, a, o, b])]),
+        (['Y static b 3', 'X rename Y'], [F, Un, S.Struct('Y', [n, a, o, b])]),
+        (['X rename Y', 'Y insert 0 z u8', 'Y remove o'], [F, Un, S.Struct('Y', [n, a, o, b])]),
+        (['X rename b c', 'X type c u32'], [F, Un, X([n, a, o, M('c', 'u32')])]),
+        (['X type b u32', 'X rename b c'], [F, Un, X([n, a, o, M('c', 'u32')])]),
         (['U rename y w'], [F, S.Union('U', [S.Arm(1, 'u8', 'x'), S.Arm(2, 'F', 'w')]), X([n, a, o, b])]),
         (['X insert 4 g u8', 'X greedy g'], [F, Un, X([n, a, o, b, M('g', 'u8', S.GREEDY)])]),
         (['X type a byte'], [F, Un, X([n, M('a', 'bytes', S.FIXED, 4), o, b])]),
@@ -348,7 +354,8 @@ def isar_universe(tier, seed):
     sts += [st for st in U.level1('quick') if len(st.symbols) <= 2]
     l2 = list(U.level2('quick', seed, coarse=True))
     sts += l2[seed % 3::3]
-    sts += list(U.level3('quick', seed, coarse=True))[::2]
+    l3 = list(U.level3('quick', seed, coarse=True))
+    sts += l3[::2] + [st for st in l3 if 'TN' in st.key]     # (typedefs of structs that nest a dynamic struct: all of them)
     reg = dict(U.BASE_HELPERS)
     reg['F1'] = S.Struct('F1', [S.M('a', 'u8'), S.M('b', 'u16')])
     for t in ('u8', 'u16', 'u64', 'F1', 'E'):
